@@ -17,7 +17,7 @@ CASES = [
       "                Y = t.length*numpy.fft.fftshift(numpy.fft.ifft(\n                numpy.fft.ifftshift(y)))*t.step",
       "                Y = t.length*numpy.fft.fftshift(numpy.fft.ifft(\n                numpy.fft.fftshift(y)))*t.step"),
     m("output shift dropped", "C13-A", D,
-      "                Y = 2.0*numpy.fft.fftshift(numpy.fft.fft(yy))*t.step", "                Y = 2.0*numpy.fft.fft(yy)*t.step"),
+      "                Y = numpy.fft.fftshift(numpy.fft.fft(yy))*t.step", "                Y = numpy.fft.fft(yy)*t.step"),
     m("forward prefactor loses dt", "C13-B", D,
       "                Y = t.length*numpy.fft.fftshift(numpy.fft.ifft(\n                numpy.fft.ifftshift(y)))*t.step",
       "                Y = t.length*numpy.fft.fftshift(numpy.fft.ifft(\n                numpy.fft.ifftshift(y)))"),
@@ -30,8 +30,8 @@ CASES = [
       "                    yy[w.length-k-1] = numpy.conj(y[k+1])\n\n                Y = 2.0*t.length",
       "                    yy[w.length-k-1] = numpy.conj(y[k])\n\n                Y = 2.0*t.length"),
     m("mirror without conjugation", "C13-C", D,
-      "                    yy[w.length-k-1] = numpy.conj(y[k+1])\n\n                Y = 2.0*numpy.fft",
-      "                    yy[w.length-k-1] = y[k+1]\n\n                Y = 2.0*numpy.fft"),
+      "                    yy[w.length-k-1] = numpy.conj(y[k+1])\n\n                Y = 2.0*t.length*numpy.fft",
+      "                    yy[w.length-k-1] = y[k+1]\n\n                Y = 2.0*t.length*numpy.fft"),
     m("frequency axis step without 2 pi", "C13-D", T,
       "            frequencies = numpy.fft.fftshift(\n                (2.0*numpy.pi)*numpy.fft.fftfreq(self.length, self.step))",
       "            frequencies = numpy.fft.fftshift(\n                numpy.fft.fftfreq(self.length, self.step))"),
@@ -67,4 +67,11 @@ CASES += [
     {"name": "inverse transform kept on the function after the first call", "kind": "mutant", "rule": "C13-E", "edits": [
         (DF, "    def get_inverse_Fourier_transform(self):",
          "    def get_inverse_Fourier_transform(self):\n        if getattr(self, \"_ift\", None) is None:\n            self._ift = self._get_inverse_Fourier_transform()\n        return self._ift\n\n    def _get_inverse_Fourier_transform(self):", 1)]},
+]
+
+CASES += [
+    {"name": "inverse transform on an upper-half time axis doubled (the repaired defect)", "kind": "mutant", "rule": "C13-B", "edits": [
+        (DF, "                Y = numpy.fft.fftshift(numpy.fft.fft(yy))*t.step", "                Y = 2.0*numpy.fft.fftshift(numpy.fft.fft(yy))*t.step", 1)]},
+    {"name": "step written first in the inverse upper-half branch", "kind": "twin", "edits": [
+        (DF, "                Y = numpy.fft.fftshift(numpy.fft.fft(yy))*t.step", "                Y = t.step*numpy.fft.fftshift(numpy.fft.fft(yy))", 1)]},
 ]
